@@ -166,3 +166,59 @@ Section Strict.
         * rewrite pd_get_set_other by exact E. apply Hd.
   Qed.
 End Strict.
+
+(* ---- the probe loop of hashjoin / hashleftjoin is the nested-loop join in the order of the left table ---------- *)
+From Verif Require Import ComparableGen ComparableFacts Sort Basics Relational.
+
+Lemma ceq_plain a b : as_tuples a = a -> as_tuples b = b -> ceq a b = py_eq a b.
+Proof. intros Ha Hb. rewrite ceq_agrees_py_eq, Ha, Hb. reflexivity. Qed.
+
+Lemma rows_of_vals_map rows : rows_of_vals (map (fun r : row => VSeq false r) rows) = rows.
+Proof. induction rows as [|r t IH]; simpl; auto. f_equal. exact IH. Qed.
+
+Section HashJoin.
+  Variables (n : nat) (lkind rkind rvind : list Z) (missing : val).
+  Notation lk := (getkey lkind).
+  Notation rk := (getkey rkind).
+  Variables (L R : list row).
+  Hypothesis HR : forall r, In r R -> raw_getkey rkind r = Some (rk r) /\ whole_row n r = Some (VSeq false r)
+                                      /\ as_tuples (rk r) = rk r.
+  Hypothesis HL : forall l, In l L -> raw_getkey lkind l = Some (lk l) /\ as_tuples (lk l) = lk l.
+
+  Lemma matching_is_matches l : In l L ->
+    rows_of_vals (matching rk (fun r => VSeq false r) (lk l) R) = matches_l lkind rkind R l.
+  Proof.
+    intros Hl. unfold matching. rewrite rows_of_vals_map. unfold matches_l.
+    apply filter_ext_in. intros r Hr.
+    destruct (HR r Hr) as (_ & _ & Pr). destruct (HL l Hl) as (_ & Pl).
+    rewrite (ceq_plain (lk l) (rk r) Pl Pr). apply py_eq_sym.
+  Qed.
+
+  Theorem hashjoin_is_nested_loop leftouter :
+    exists rl, lookup_loop (raw_getkey rkind) (whole_row n) [] R = Ok rl /\
+               hashjoin_loop lkind rvind missing leftouter rl L
+               = (nls_left lkind rkind rvind missing leftouter L R, None).
+  Proof.
+    destruct (lookup_groups_in_order (raw_getkey rkind) (whole_row n) rk (fun r => VSeq false r) R) as (rl & E & Hd).
+    { intros r Hr. destruct (HR r Hr) as (A & B & _). auto. }
+    exists rl. split; auto.
+    assert (G : forall L', (forall l, In l L' -> In l L) ->
+                hashjoin_loop lkind rvind missing leftouter rl L' = (nls_left lkind rkind rvind missing leftouter L' R, None)).
+    { induction L' as [|l t IH]; intros Hsub; cbn [hashjoin_loop nls_left flat_map]; auto.
+      assert (Hl : In l L) by (apply Hsub; left; reflexivity).
+      destruct (HL l Hl) as (Kl & _). rewrite Kl.
+      rewrite IH by (intros x Hx; apply Hsub; right; exact Hx).
+      rewrite Hd. rewrite <- (matching_is_matches l Hl).
+      destruct (matching rk (fun r => VSeq false r) (lk l) R) as [|x xs] eqn:M; cbn [rows_of_vals map]; [reflexivity|].
+      reflexivity. }
+    apply G. auto.
+  Qed.
+End HashJoin.
+
+(* the nested loop in left-table order is the inner part of the relational join, plus the padded unmatched rows *)
+Lemma nls_left_inner lkind rkind rvind missing L R :
+  nls_left lkind rkind rvind missing false L R = nl_inner lkind rkind rvind missing L R.
+Proof.
+  unfold nls_left, nl_inner. apply flat_map_ext. intros l.
+  destruct (matches_l lkind rkind R l); reflexivity.
+Qed.
